@@ -94,9 +94,9 @@ func runC15(h *hx.H) {
 	if h.Thorough() {
 		maxPlaced = 3
 	}
-	h.Rule = fmt.Sprintf("inputs: four-file workspaces (main imports dep; dep imports pub publicly and hidden plainly) with main's package in {a.b.c, a.b, x, none} and dep's in {a.b, a, b, a.b.c, none}; a definition named T placed at <=%d of seven places (inside the referencing message M, inside its parent O, main's file scope, dep's file scope, the publicly re-exported file, the invisible file, nested in a dep message) as message / enum / field / enum value / service; a reference from one of three sites (field type, rpc request type, extendee) spelled as every dotted suffix of every placed definition's full name and of M's, with and without leading dot and with `.U` appended; oracle: the reference implementation of protoc's LookupSymbol (DESIGN Appendix B) embedded in the schema model: same accept/reject, and on accept the same resolved full name in the descriptor; non-trivial = layout with >=2 definitions", maxPlaced)
+	h.Rule = fmt.Sprintf("inputs: four-file workspaces (main imports dep; dep imports pub publicly and hidden plainly) with main's package in {a.b.c, a.b, x, none, a.bb, ab.c, a.b.a} and dep's in {a.b, a, b, a.b.c, none}; a definition named T placed at <=%d of seven places (inside the referencing message M, inside its parent O, main's file scope, dep's file scope, the publicly re-exported file, the invisible file, nested in a dep message) as message / enum / field / enum value / service; a reference from one of three sites (field type, rpc request type, extendee) spelled as every dotted suffix of every placed definition's full name and of M's, with and without leading dot and with `.U` appended; oracle: the reference implementation of protoc's LookupSymbol (DESIGN Appendix B) embedded in the schema model: same accept/reject, and on accept the same resolved full name in the descriptor; non-trivial = layout with >=2 definitions", maxPlaced)
 	h.Assumptions = append(h.Assumptions, "protoc itself is not available: the oracle is a reference implementation of DescriptorBuilder::LookupSymbolNoPlaceholder written from protoc's documented algorithm")
-	pms := []string{"a.b.c", "a.b", "x", ""}
+	pms := []string{"a.b.c", "a.b", "x", "", "a.bb", "ab.c", "a.b.a"}
 	pds := []string{"a.b", "a", "b", "a.b.c", ""}
 	var rec func(from int, placed map[int]string)
 	layouts := [](map[int]string){}
